@@ -29,6 +29,25 @@ self.node v:int kids:(vector self.node) = self.Node;
 """
 
 
+def ties_schema():
+    """the same local names in many namespaces: every place where generated code is ordered by a name must use one that is unique"""
+    nss = ["na", "nb", "nc", "nd", "ne", "nf", "ng", "nh"]
+    t, f = [], []
+    for i, ns in enumerate(nss):
+        t.append("%s.item {m:#} x:m.0?int y:m.1?string z:m.0?long = %s.Item m;" % (ns, ns))
+        t.append("%s.box {t:Type} v:t = %s.Box t;" % (ns, ns))
+        t.append("%s.kindOne = %s.Kind;\n%s.kindTwo a:int = %s.Kind;" % (ns, ns, ns, ns))
+        t.append("%s.pair m:# a:m.0?%s.item_plain b:m.0?int = %s.Pair;\n%s.item_plain id:int = %s.ItemPlain;" % (ns, ns, ns, ns, ns))
+        f.append("@read %s.get mask:# = %s.Item mask;" % (ns, ns))
+        f.append("@read %s.getBoxes mask:# = Vector (%s.Box (%s.item mask));" % (ns, ns, ns))
+    t.append("everything {m:#} " + " ".join("i%d:(%s.item m) b%d:(%s.box int) k%d:%s.Kind" % (i, ns, i, ns, i, ns) for i, ns in enumerate(nss)) + " = Everything m;")
+    t.append("everythingRev {m:#} " + " ".join("i%d:(%s.item m)" % (i, ns) for i, ns in reversed(list(enumerate(nss)))) + " = EverythingRev m;")
+    f.append("@read getEverything mask:# = Everything mask;")
+    f.append("@read getEverythingRev mask:# = EverythingRev mask;")
+    f.append("@read getMaybe mask:# = Maybe (Everything mask);")
+    return "\n".join(t) + "\n---functions---\n" + "\n".join(f) + "\n"
+
+
 def tree(root):
     if os.path.isfile(root):
         return {"<file>": core.sha(root)}
@@ -58,6 +77,9 @@ def run(ctx):
     cyc = os.path.join(ctx.work, "cycles.tl")
     open(cyc, "w").write(schemagen.PRELUDE + CYCLES)
     sets["cycles"] = [cyc]
+    ties = os.path.join(ctx.work, "ties.tl")
+    open(ties, "w").write(schemagen.PRELUDE + ties_schema())
+    sets["ties"] = [ties]
     sn = os.path.join(ctx.work, "samenames")
     for d, ns in (("svcA", "sva"), ("svcB", "svb"), ("svcC", "svc")):
         os.makedirs(os.path.join(sn, d, "api"))
@@ -76,6 +98,10 @@ def run(ctx):
                 if lang not in ("go", "go-split", "tlo"):
                     continue
                 variants = [(16, 0)] * (12 if thorough else 6) if lang == "go-split" else [(16, 0), (1, 0)]
+            if sname == "ties":
+                if lang not in ("go", "go-split", "php", "tlo"):
+                    continue
+                variants = [(16, 0)] * (16 if thorough else 8) if lang in ("go", "go-split") else [(16, 0), (1, 0), (16, 0)]
             if sname == "samenames":
                 if lang in ("php", "cpp", "tljson.html"):
                     continue
@@ -133,7 +159,8 @@ def run(ctx):
     ctx.cov["rule"] = ("for each repository schema set x output kind (go, go --split-internal, php with bodies, tlo, canonical, tljson.html, cpp via tlgen for cases.tl): "
                        "3 (thorough 6) runs with GOMAXPROCS in {16,1,2,4}, the input files permuted/reversed and (goldmaster) given as a directory; explicit non-zero "
                        "--schemaTimestamp; complete output trees compared byte for byte (path + sha256) against run 0. Go's randomized map iteration is "
-                       "inherent to every run. Crafted inputs: a schema of import cycles (diamonds, rings, across namespaces) generated 6 (12) times with --split-internal; three "
+                       "inherent to every run. Crafted inputs: a schema of import cycles (diamonds, rings, across namespaces) generated 6 (12) times with --split-internal; a schema with the same local names "
+                       "(templates with masks, unions, functions passing a mask to their result) in eight namespaces generated 8 (16) times; three "
                        "directories holding files of the same relative names given in 5 orders. distinct_nontrivial = distinct (schema, output kind, GOMAXPROCS, permutation) compared.")
     ctx.require("generator runs", runs, 30)
     ctx.require("compared runs", len(ctx._distinct), 20)
